@@ -206,6 +206,7 @@ func checkC16(p *Prog, res *Result, tier string) {
 	res.rule("C16-R3", "the shim builds one ResponseOp of the prescribed kind per shape", 4)
 	res.rule("C16-R4", "unsupported RPC handlers reach no backend write", 5)
 	res.rule("C16-R7", "watch and range answers are not corrupted after they were handed over: batches sent over channels are never written again by the sender (C05-R9)", 2)
+	res.rule("C16-R8", "the backend conditions behind the transaction shapes hold (C01-R3/R4/R7) and engine faults are not turned into answers by the metrics wrapper (C11-R5)", 10)
 	res.rule("C16-R6", "a Range answer is the backend's complete snapshot read: no key missing, duplicated or out of order because of partitioning or a retried scan (C13-R5/R6/R8)", 5)
 	res.rule("C16-R5", "the failure branch of update/delete answers with the key-value read after the failed write", 2)
 
@@ -542,6 +543,24 @@ func checkC16(p *Prog, res *Result, tier string) {
 	for _, o := range sub13.Obls {
 		if o.Rule == "C13-R5" || o.Rule == "C13-R6" || o.Rule == "C13-R8" {
 			res.add("C16-R6", o.Rule+" "+o.Construct, o.Status, o.Pos, o.Detail)
+		}
+	}
+
+	// ---- R8: what the transaction shapes are translated into keeps etcd's meaning only if the backend's conditions do
+	// (create over a deletion record, delete guard, deletion flag: C01-R3/R4/R7), and an engine fault reaches the client
+	// as an error, not as an answer (the metrics wrapper in front of every engine is transparent: C11-R5)
+	{
+		sub1 := p.subResult("C01", tier)
+		for _, o := range sub1.Obls {
+			if o.Rule == "C01-R3" || o.Rule == "C01-R4" || o.Rule == "C01-R7" {
+				res.add("C16-R8", o.Rule+" "+o.Construct, o.Status, o.Pos, o.Detail)
+			}
+		}
+		sub11 := p.subResult("C11", tier)
+		for _, o := range sub11.Obls {
+			if o.Rule == "C11-R5" {
+				res.add("C16-R8", o.Rule+" "+o.Construct, o.Status, o.Pos, o.Detail)
+			}
 		}
 	}
 
